@@ -21,8 +21,8 @@ from txdbus import error as t_error
 
 PROPERTY = 'C11'
 LEVEL = 'exploration'
-QUICK_RUNS = 3000
-QUICK_BUDGET_S = 120
+QUICK_RUNS = 15000
+QUICK_BUDGET_S = 60
 THOROUGH_BUDGET_S = 1200
 RULE = ('2-4 real clients on the real built-in bus; 1-2 exporters with generated interfaces; '
         'proxies by explicit interface / interface name / introspection; 1-3 concurrent calls x '
